@@ -63,6 +63,32 @@ def run(run, tier, loadcfg):
         if si is None or ri is None:
             run.fail('buffered.fields', KEY, cfg, 'Buffered { signal, ring_buffer } not found')
             continue
+        # ---- constructor / destructor: "pulls exactly one buffer's worth when empty and none otherwise" starts at construction:
+        # buffered() must store the source and the ring buffer untouched (no pull, no push), into_parts must hand them back
+        fn = 'dasp_signal::Signal::buffered'
+        body = cx.body(fn)
+        if body is None:
+            run.fail('buffered.ctor', fn, cfg, 'function not found')
+        else:
+            ps = normal_paths(cx.paths(fn, stop_trait_methods=STOP, opaque_prefixes=RB))
+            bad = None
+            if len(ps) != 1 or ps[0]['end'] != 'return':
+                bad = 'expected a single returning path'
+            else:
+                p = ps[0]
+                evs = [ev_key(e) for k, e in call_events(p)]
+                r = p['ret']
+                if evs or heap_writes(p):
+                    bad = 'touches the source or the ring buffer at construction (%s): no frame may be pulled before one is requested' % ', '.join(evs or ['writes'])
+                elif not (r[0] == 'agg' and r[1][1] == KEY and r[2][si] == ('param', 1) and r[2][ri] == ('param', 2)):
+                    bad = 'must be Buffered { signal: self, ring_buffer }: %s' % short(r)
+            run.check(bad is None, 'buffered.ctor', fn, cfg, bad or '', where=where(body))
+        fn = 'dasp_signal::Buffered::<S, D>::into_parts'
+        body = cx.body(fn)
+        if body is not None:
+            ps = normal_paths(cx.paths(fn, stop_trait_methods=STOP, opaque_prefixes=RB))
+            ok = len(ps) == 1 and not call_events(ps[0]) and ps[0]['ret'] == ('agg', ('tuple',), (('field', ('param', 1), si), ('field', ('param', 1), ri)))
+            run.check(ok, 'buffered.ctor', fn, cfg, 'into_parts must return (signal, ring_buffer) untouched', where=where(body))
         # ---- next
         fn = '<dasp_signal::Buffered<S, D> as dasp_signal::Signal>::next'
         body = cx.body(fn)
@@ -188,3 +214,5 @@ def run(run, tier, loadcfg):
             if seen != {True, False}:
                 bad = bad or 'missing case'
             run.check(bad is None, 'buffered.is_exhausted', fn, cfg, bad or '', where=where(body))
+        check_overrides(run, cx, cfg, 'buffered.inventory', lambda p: p in ('dasp_signal::Buffered', 'dasp_signal::BufferedFrames'),
+                        evaluated={fn for _, fn, _, _ in run.instances}, minimum=3)
